@@ -151,6 +151,26 @@ func init() {
 	}
 }
 
+// commonAnchors: how a request is decomposed before any method or bias runs (which alternatives are considered, in which
+// order, with which parsed parameters) is a premise of every property about the outcome of a decision.
+var commonAnchorRe = []*regexp.Regexp{
+	regexp.MustCompile(`^model\.\(\*DecisionMaker\)\.(MakeDecision|prepareParams|AlternativesToConsider|NotConsideredAlternatives|validateAlternatives)$`),
+	regexp.MustCompile(`^model\.(FetchAlternatives|FetchAlternative)$`),
+	regexp.MustCompile(`^model\.\(\*PreferenceFunctions\)\.(Fetch|Get|Len)$`),
+}
+
+func commonAnchor(prop, key string) bool {
+	if prop == "C02" || prop == "C10" {
+		return false
+	}
+	for _, re := range commonAnchorRe {
+		if re.MatchString(key) {
+			return true
+		}
+	}
+	return false
+}
+
 func anchoredIn(prop, key string) bool {
 	for _, re := range anchorRe[prop] {
 		if re.MatchString(key) {
@@ -191,7 +211,14 @@ func ruleE5(p *Program, c *Check, min int) {
 			}
 		}
 	}
-	c.Extra["anchors"] = map[string]int{"matched_by_pattern": direct, "added_as_static_callees": len(anchored) - direct}
+	closed := len(anchored)
+	// the request-decomposition functions are compared themselves, their callees are not pulled in
+	for _, sp := range pairs {
+		if commonAnchor(c.Property, sp.Key) {
+			anchored[sp.Key] = true
+		}
+	}
+	c.Extra["anchors"] = map[string]int{"matched_by_pattern": direct, "added_as_static_callees": closed - direct, "request_decomposition": len(anchored) - closed}
 	// the struct types whose fields the anchored functions read or write are obligations of the same property (E5-types)
 	usedTypes := map[string]bool{}
 	for _, sp := range pairs {
